@@ -23,9 +23,9 @@ SweepBasesExh == {"zero"}
 SweepBasesDeep == {"zero"}
 Pre2Deep == 0 .. 255
 UidExh == {32, 33}
-UidDeep == {32, 36, 64, 33, 35}
+UidDeep == {32, 36, 33, 35}
 CkLensExh == {8, 24, 6}
-CkLensDeep == {8, 24, 6}
+CkLensDeep == {8, 6}
 PhLensExh == {8, 6}
 PhLensDeep == {8, 24, 6}
 PtExh == {<< >>, <<24>>, <<100, 100>>, <<8, 8, 8>>}
